@@ -119,7 +119,7 @@ def run_impl(case):
                     rstb, wstb = int("r" in kind), int("w" in kind)
                 else:
                     addr, rstb, wstb = rnd.randrange(1 << aw_total), 0, 0
-            wdata = rnd.getrandbits(dw)
+            wdata = lib.bits(rnd, dw)
             if rnd.random() < .3:
                 wdata = rnd.choice([0, cmask])
             for k in range(n):
